@@ -1,6 +1,8 @@
 """C07 - Silent instances are detected in bounded time, live ones never declared lost."""
 from pyvc.spec import *
 
+GROUP = 'members'   # contracts of one group use each other's contracts at call sites (pyvc/hooks.py contract_for_call)
+
 ACTIVE = [SupvisorsInstanceStates.CHECKING, SupvisorsInstanceStates.CHECKED, SupvisorsInstanceStates.RUNNING,
           SupvisorsInstanceStates.FAILED]
 
